@@ -619,6 +619,101 @@ theorem metadataEntry_coverAll (hw : WFI off w ts) (h : G ts e s) (h0 : s.cur = 
           exact fin _
         · exact fin _
 
+/-- the finer statement for a metadata line: the content tokens before the first `:` lie inside the
+    span of the KEY text, those after it inside the span of the VALUE text; the key ends before the
+    value starts -/
+def MetaCovers (cs : CharSpec) (ts : List Tok) (ev : Ev α) : Prop :=
+  ∃ (key value : Text) (ci : Nat) (ct : Tok), ev = .metadata key value ∧ ts[ci]? = some ct ∧ ct.kind = .colon ∧
+    (∀ (i : Nat) (t : Tok), i < ci → ts[i]? = some t → t.kind ≠ .colon) ∧
+    key.span.stop ≤ ct.start ∧ ct.stop ≤ value.span.start ∧
+    ∀ (i : Nat) (t : Tok), ts[i]? = some t → Wordy cs t →
+      (i < ci → key.span.start ≤ tokBodyStart t ∧ t.stop ≤ key.span.stop) ∧
+      (ci < i → value.span.start ≤ tokBodyStart t ∧ t.stop ≤ value.span.stop)
+
+theorem metadataEntry_coverFine (hw : WFI off w ts) (h : G ts e s) (h0 : s.cur = 0) :
+    Sat (metadataEntry (α := α)) s (fun r _ => ∀ ev, r = some ev → MetaCovers cs ts ev) := by
+  unfold metadataEntry
+  refine Sat.bind (Sat.mono (consumeK_sat _ h) ?_)
+  rintro r1 s1 ⟨g1, h1⟩
+  cases r1 with
+  | none => exact Sat.pure (fun ev hev => by cases hev)
+  | some m =>
+    obtain ⟨hm, hmk, c1⟩ := h1
+    refine Sat.bind (currentOffset_sat g1 ?_)
+    refine Sat.bind (Sat.mono (untilK_sat _ g1) ?_)
+    rintro r2 s2 ⟨g2, h2⟩
+    cases r2 with
+    | none =>
+      unfold bpSpan
+      refine Sat.bind (Sat.bind (Sat.get ?_))
+      refine tokensSpanP_sat (by rw [g2.toks]; exact hw.ne) ?_
+      refine Sat.bind (Sat.pwarnE ?_)
+      exact Sat.pure (fun ev hev => by cases hev)
+    | some keyT =>
+      obtain ⟨c2, hkey, ⟨c, hcl, hck⟩, hnocolon⟩ := h2
+      have hr : RunIn off w (offAt ts s1.cur) keyT := by rw [hkey]; exact hw.slice c2
+      refine Sat.bind (bpText_sat hr.run ?_)
+      refine Sat.bind (Sat.mono (bump_sat g2 hcl (by simpa using hck)) ?_)
+      rintro _ s3 ⟨-, g3, c3⟩
+      refine Sat.bind (currentOffset_sat g3 ?_)
+      refine Sat.bind (Sat.mono (consumeRest_sat g3) ?_)
+      rintro valT s4 ⟨g4, c4, hv⟩
+      have hr2 : RunIn off w (offAt ts s3.cur) valT := by rw [hv]; exact hw.slice g3.le
+      refine Sat.bind (bpText_sat hr2.run ?_)
+      refine Sat.bind (Sat.get ?_)
+      dsimp only
+      have key : MetaCovers cs ts (Ev.metadata (α := α) (buildText (offAt ts s1.cur) keyT)
+          (buildText (offAt ts s3.cur) valT)) := by
+        have hrg := hr.text_range
+        have hrg2 := hr2.text_range
+        have e1 : lastStop (offAt ts s1.cur) keyT = offAt ts s2.cur := by rw [hkey]; exact offAt_slice c2
+        rw [e1] at hrg
+        have hck' : c.kind = .colon := by simpa using hck
+        refine ⟨_, _, s2.cur, c, rfl, hcl, hck', ?_, ?_, ?_, ?_⟩
+        · intro i t hi ht hk
+          by_cases a0 : i < s1.cur
+          · have : i = s.cur := by omega
+            subst this
+            rw [hm] at ht
+            simp only [Option.some.injEq] at ht
+            subst ht
+            rw [hmk] at hk; cases hk
+          · have := hnocolon t (by rw [hkey]; exact cover_mem_slice (by omega) hi ht)
+            rw [hk] at this; simp at this
+        · rw [(hw.tokAt hcl).1]; exact hrg.2
+        · rw [(hw.tokAt hcl).2, ← c3]; exact hrg2.1
+        · intro i t ht hct
+          have hi : i < ts.length := getElem?_lt ht
+          refine ⟨fun a1 => ?_, fun a1 => ?_⟩
+          · have a0 : ¬ i < s1.cur := by
+              intro a0
+              have : i = s.cur := by omega
+              subst this
+              rw [hm] at ht
+              simp only [Option.some.injEq] at ht
+              subst ht
+              exact hct.2.2.2.1 hmk
+            obtain ⟨-, -, m3, m4⟩ := textRun_cover hw.wf c2 (by omega) a1 ht hct
+            rw [hkey]; exact ⟨m3, m4⟩
+          · obtain ⟨-, -, m3, m4⟩ := textRun_cover hw.wf g3.le (by omega) hi ht hct
+            rw [hv]; exact ⟨m3, m4⟩
+      have fin : ∀ s' : BP α, Sat (pure (some (Ev.metadata (α := α) (buildText (offAt ts s1.cur) keyT)
+          (buildText (offAt ts s3.cur) valT))) : P α (Option (Ev α))) s'
+          (fun r _ => ∀ ev, r = some ev → MetaCovers cs ts ev) := by
+        intro s'
+        refine Sat.pure ?_
+        intro ev hev
+        simp only [Option.some.injEq] at hev
+        subst hev
+        exact key
+      split
+      · refine Sat.bind (Sat.perrE ?_)
+        exact fin _
+      · split
+        · refine Sat.bind (Sat.pwarnE ?_)
+          exact fin _
+        · exact fin _
+
 /-! ### blocks -/
 
 theorem parseMultilineBlock_coverAll (hw : WFI off w ts) (hz : Boundary off w 0)
